@@ -14,16 +14,26 @@
       (M1): if both end accepted, every item of the first build has the same resolved value in
       both -- whatever the two orders.  Adding items whose presence the old items' attempts do not
       notice leaves the old items' results unchanged.
-    NOT PROVED: that the model's attempt functions for two concrete input sets agree on the items
-    of the observed module's closure (the frame lemma across two registries; [C19_lookup_local] and
-    [C19_sizes_of_resolved_stable] are its ingredients, M1 is [C09_attempt_monotone]); so the claim
-    is partial and decided on the real code by the monitor:
-    pairs of accepted input sets that differ only outside the observed module's import closure,
-    output file compared byte for byte. *)
+    - the concrete theorem for the model (Frame.v, Unrelated.v, UnrelatedStates.v): [C19_unrelated_modules],
+      [C19_unrelated_modules_externs] -- two inputs, the second with additional modules, both accepted:
+      every item and extern value of the first input has the same resolved value in both;
+    - and on the EMITTED FILES (EmitLocal.v, UnrelatedGen.v, UnrelatedFilesLift.v, HierarchyFuel.v,
+      UnrelatedFiles.v): [C19_unrelated_module_file] -- under the same hypotheses the file of every
+      module of the first input is the same in both builds ([module_file t1 m1 = module_file t2 m2],
+      equality of outcomes, errors included); [C19_unrelated_files_written] /
+      [C19_unrelated_files_included]: when the bigger build writes its files the smaller one
+      writes too, and every (path, content) pair it writes is one the bigger build writes.
+    Side conditions (all decidable): both inputs collision free and clean (C09.v) and [no_capture]
+    (the additional modules do not replace a module of the first input and define nothing at a
+    lookup candidate of it -- sufficient, not necessary).  Only accepted/accepted pairs are treated.
+    The monitor decides the property on the real code: pairs of accepted input sets that differ
+    only outside the observed module's import closure, output file compared byte for byte. *)
 From Coq Require Import List Bool NArith String.
 From Coq Require Import Permutation.
 From PyxisModel Require Import Base Grammar SemTypes Registry Sem ScopeLemmas Confluence Locality WholeBuild Monotone OrderIndep Unrelated UnrelatedStates.
 Import ListNotations.
+
+From PyxisModel Require EmitLocal HierarchyFuel UnrelatedFiles.
 
 Theorem C19_lookup_local : forall R R' scope name,
   (forall p, In p (lookup_candidates scope name) -> reg_has R p = reg_has R' p) ->
@@ -106,3 +116,62 @@ Proof.
   - exact unrelated_accepted.
   - destruct capture_detected as (st1 & st2 & H1 & H2 & Hnc & _). exists st1, st2. repeat split; assumption.
 Qed.
+
+Theorem C19_unrelated_module_file :
+  forall (ptr : N) (mods1 extra : list (path * gmodule)) (st1 st2 : sstate)
+      (o1 o2 : list path -> list path) (t1 t2 : sstate),
+    input_state ptr mods1 = Ok st1 ->
+    input_state ptr (mods1 ++ extra) = Ok st2 ->
+    collision_free (st_reg st1) ->
+    collision_free (st_reg st2) ->
+    clean_stateb st1 = true ->
+    clean_stateb st2 = true ->
+    no_capture st1 st2 extra = true ->
+    (forall l : list path, Permutation (o1 l) l) ->
+    (forall l : list path, Permutation (o2 l) l) ->
+    pyxis_resolve o1 ptr mods1 = BOk t1 ->
+    pyxis_resolve o2 ptr (mods1 ++ extra) = BOk t2 ->
+    forall (k : path) (m : smodule),
+    alookup k (st_modules st1) = Some m ->
+    exists m1 m2 : smodule,
+      alookup k (st_modules t1) = Some m1 /\
+      alookup k (st_modules t2) = Some m2 /\ Emit.module_file t1 m1 = Emit.module_file t2 m2.
+Proof. exact UnrelatedFiles.module_file_unrelated. Qed.
+Print Assumptions C19_unrelated_module_file.
+
+Theorem C19_unrelated_files_written :
+  forall (ptr : N) (mods1 extra : list (path * gmodule)) (st1 st2 : sstate)
+      (o1 o2 : list path -> list path) (t1 t2 : sstate) (files2 : list (string * Sexp.sexp)),
+    input_state ptr mods1 = Ok st1 ->
+    input_state ptr (mods1 ++ extra) = Ok st2 ->
+    collision_free (st_reg st1) ->
+    collision_free (st_reg st2) ->
+    clean_stateb st1 = true ->
+    clean_stateb st2 = true ->
+    no_capture st1 st2 extra = true ->
+    (forall l : list path, Permutation (o1 l) l) ->
+    (forall l : list path, Permutation (o2 l) l) ->
+    pyxis_resolve o1 ptr mods1 = BOk t1 ->
+    pyxis_resolve o2 ptr (mods1 ++ extra) = BOk t2 ->
+    Emit.write_all t2 = Ok files2 ->
+    exists files1 : list (string * Sexp.sexp), Emit.write_all t1 = Ok files1 /\ incl files1 files2.
+Proof. exact UnrelatedFiles.write_all_unrelated. Qed.
+Print Assumptions C19_unrelated_files_written.
+
+Theorem C19_unrelated_files_included :
+  forall (ptr : N) (mods1 extra : list (path * gmodule)) (st1 st2 : sstate)
+      (o1 o2 : list path -> list path) (t1 t2 : sstate) (files1 files2 : list (string * Sexp.sexp)),
+    input_state ptr mods1 = Ok st1 ->
+    input_state ptr (mods1 ++ extra) = Ok st2 ->
+    collision_free (st_reg st1) ->
+    collision_free (st_reg st2) ->
+    clean_stateb st1 = true ->
+    clean_stateb st2 = true ->
+    no_capture st1 st2 extra = true ->
+    (forall l : list path, Permutation (o1 l) l) ->
+    (forall l : list path, Permutation (o2 l) l) ->
+    pyxis_resolve o1 ptr mods1 = BOk t1 ->
+    pyxis_resolve o2 ptr (mods1 ++ extra) = BOk t2 ->
+    Emit.write_all t1 = Ok files1 -> Emit.write_all t2 = Ok files2 -> incl files1 files2.
+Proof. exact UnrelatedFiles.write_all_unrelated_incl. Qed.
+Print Assumptions C19_unrelated_files_included.
